@@ -24,7 +24,7 @@ import (
 
 var alphabet = []string{"a", "task", "_", "é", " ", "\t", "\n", "\r", "#", "(", ")", "{", "}", "\"", ",", ":=", "->", "{{", "}}", ".", "1", "\xff", "\u0085", "$", "-", ":", "\\"}
 
-var prefixes = []string{"", "task a() {\n", "task a(", "task a() -> ", "task a() -> (", "A := ", "A := join(", "# ", "task a() { b", "task ", "A := \"", "task a(\"x\", ", "task a() {\n b\n", "# c\n", "A := \"x\" ", "task a() -> \"x\" ", "A := b\n", "task a() { b }\n", "A", "task a() -> (\"x\", "}
+var prefixes = []string{"", "task a() {\n", "task a(", "task a() -> ", "task a() -> (", "A := ", "A := join(", "# ", "task a() { b", "task ", "A := \"", "task a(\"x\", ", "task a() {\n b\n", "# c\n", "A := \"x\" ", "task a() -> \"x\" ", "A := b\n", "task a() { b }\n", "A", "task a() -> (\"x\", ", "A := \"x\" task"}
 
 type parseResult struct {
 	tree     ast.Tree
@@ -387,6 +387,21 @@ func search(prop string, or func(string) string, depth, maxFail int) {
 			}
 			gen(p, d)
 		}
+	}
+	if prop == "C15" {
+		// comments / docstrings read off the source lines (independent of the lexer)
+		lineSequencesLines(depth, func(lines []string) {
+			for _, final := range []string{"", "\n"} {
+				atomic.AddInt64(&total, 1)
+				if msg := oracleC15Lines(lines, final); msg != "" {
+					mu.Lock()
+					if len(fails) < maxFail {
+						fails = append(fails, fmt.Sprintf("%q: %s", strings.Join(lines, "\n")+final, msg))
+					}
+					mu.Unlock()
+				}
+			}
+		})
 	}
 	if prop == "C07" || prop == "C11" || prop == "C15" || prop == "C06" {
 		// structured inputs: comment/blank/statement line sequences and the generated programs of C06
